@@ -1,10 +1,10 @@
 /* Frame: construction and the cloning helpers add(...)  (C06 C08 C13). */
-#include "model_contracts.h"
+#include "vf_harness.h"
 size_t vf_gk, vf_gj, vf_gc;
 
 /* Frame(): fresh empty Points and Analogs */
 void contract_Frame__ctor(struct Frame *self)
-__CPROVER_requires(vf_exc == 0 && __CPROVER_is_fresh(self, sizeof(*self)))
+__CPROVER_requires(vf_exc == 0 && __CPROVER_rw_ok(self, sizeof(*self)))
 __CPROVER_assigns(*self, VF_GHOST_ALLOC)
 /*@ C06 C08 C13 : Frame_ctor.fresh-empty-points */
 __CPROVER_ensures(__CPROVER_is_fresh(self->_points, sizeof(struct Points)) && self->_points->_points.size == 0)
@@ -14,14 +14,14 @@ __CPROVER_ensures(__CPROVER_is_fresh(self->_analogs, sizeof(struct Analogs)) && 
 
 void h_Frame_ctor(void)
 {
-  struct Frame *self;
+  struct Frame *self = (struct Frame *)vf_alloc(sizeof(*self));
   Frame__ctor(self);
   __CPROVER_assert(0, "VACUITY_CANARY");
 }
 
 /* add(Points): the frame gets its *own* copy of the points */
 void contract_Frame__add__Points(struct Frame *self, const struct Points *point3d_frame)
-__CPROVER_requires(vf_exc == 0 && __CPROVER_is_fresh(self, sizeof(*self)) && __CPROVER_is_fresh(point3d_frame, sizeof(*point3d_frame)))
+__CPROVER_requires(vf_exc == 0 && __CPROVER_rw_ok(self, sizeof(*self)) && __CPROVER_r_ok(point3d_frame, sizeof(*point3d_frame)))
 __CPROVER_requires(VF_POINTS_OK(*point3d_frame, vf_gj))
 __CPROVER_assigns(self->_points, VF_GHOST_ALLOC)
 /*@ C08 C06 C13 : Frame_add_Points.own-copy */
@@ -30,6 +30,10 @@ __CPROVER_ensures(__CPROVER_is_fresh(self->_points, sizeof(struct Points)) && se
 __CPROVER_ensures(self->_points->_points.size == point3d_frame->_points.size)
 /*@ C08 : Frame_add_Points.storage-not-shared */
 __CPROVER_ensures(__CPROVER_is_fresh(self->_points->_points.data, VF_VEC_BYTES(point3d_frame->_points, struct Point)))
+/*@ C13 C08 : Frame_add_Points.point-valid */
+__CPROVER_ensures(vf_gj < point3d_frame->_points.size ==>
+                  (__CPROVER_is_fresh(self->_points->_points.data[vf_gj]._data.data, 4 * sizeof(float)) &&
+                   __CPROVER_is_fresh(self->_points->_points.data[vf_gj]._name.data, point3d_frame->_points.data[vf_gj]._name.size + 1)))
 /*@ C06 C01 : Frame_add_Points.same-content */
 __CPROVER_ensures(vf_gj < point3d_frame->_points.size ==>
                   VF_POINT_EQ_AT(self->_points->_points.data[vf_gj], point3d_frame->_points.data[vf_gj], vf_gc))
@@ -41,14 +45,14 @@ __CPROVER_ensures(vf_gj < point3d_frame->_points.size ==>
 
 void h_Frame_add_Points(void)
 {
-  struct Frame *self;
-  const struct Points *pts;
+  struct Frame *self = (struct Frame *)vf_alloc(sizeof(*self));
+  const struct Points *pts = vf_mk_points();
   Frame__add__Points(self, pts);
   __CPROVER_assert(0, "VACUITY_CANARY");
 }
 
 void contract_Frame__add__Analogs(struct Frame *self, const struct Analogs *analogs_frame)
-__CPROVER_requires(vf_exc == 0 && __CPROVER_is_fresh(self, sizeof(*self)) && __CPROVER_is_fresh(analogs_frame, sizeof(*analogs_frame)))
+__CPROVER_requires(vf_exc == 0 && __CPROVER_rw_ok(self, sizeof(*self)) && __CPROVER_r_ok(analogs_frame, sizeof(*analogs_frame)))
 __CPROVER_requires(VF_ANALOGS_OK(*analogs_frame, vf_gk, vf_gj))
 __CPROVER_assigns(self->_analogs, VF_GHOST_ALLOC)
 /*@ C08 C06 C13 : Frame_add_Analogs.own-copy */
@@ -60,6 +64,14 @@ __CPROVER_ensures(__CPROVER_is_fresh(self->_analogs->_subframe.data, VF_VEC_BYTE
 /*@ C06 C01 : Frame_add_Analogs.same-channel-count */
 __CPROVER_ensures(vf_gk < analogs_frame->_subframe.size ==>
                   self->_analogs->_subframe.data[vf_gk]._channels.size == analogs_frame->_subframe.data[vf_gk]._channels.size)
+/*@ C13 C08 : Frame_add_Analogs.channels-valid */
+__CPROVER_ensures(vf_gk < analogs_frame->_subframe.size ==>
+                  __CPROVER_is_fresh(self->_analogs->_subframe.data[vf_gk]._channels.data,
+                                     VF_VEC_BYTES(analogs_frame->_subframe.data[vf_gk]._channels, struct Channel)))
+/*@ C13 C08 : Frame_add_Analogs.channel-name-valid */
+__CPROVER_ensures((vf_gk < analogs_frame->_subframe.size && vf_gj < analogs_frame->_subframe.data[vf_gk]._channels.size) ==>
+                  __CPROVER_is_fresh(self->_analogs->_subframe.data[vf_gk]._channels.data[vf_gj]._name.data,
+                                     analogs_frame->_subframe.data[vf_gk]._channels.data[vf_gj]._name.size + 1))
 /*@ C06 C01 : Frame_add_Analogs.same-content */
 __CPROVER_ensures((vf_gk < analogs_frame->_subframe.size && vf_gj < analogs_frame->_subframe.data[vf_gk]._channels.size) ==>
                   VF_CHANNEL_EQ_AT(self->_analogs->_subframe.data[vf_gk]._channels.data[vf_gj],
@@ -71,8 +83,92 @@ __CPROVER_ensures(vf_gk < analogs_frame->_subframe.size ==>
 
 void h_Frame_add_Analogs(void)
 {
-  struct Frame *self;
-  const struct Analogs *a;
+  struct Frame *self = (struct Frame *)vf_alloc(sizeof(*self));
+  const struct Analogs *a = vf_mk_analogs();
   Frame__add__Analogs(self, a);
   __CPROVER_assert(0, "VACUITY_CANARY");
+}
+
+/* add(Frame) = add(points, analogs) of the argument: both parts cloned */
+#define VF_FRAME_OK(f, k, j) (__CPROVER_r_ok((f)._points, sizeof(struct Points)) && VF_POINTS_OK(*(f)._points, j) && \
+                              __CPROVER_r_ok((f)._analogs, sizeof(struct Analogs)) && VF_ANALOGS_OK(*(f)._analogs, k, j))
+
+/* The two halves are proved in separate queries (both replaced contracts in one query exhaust 12 GB):
+ * in each, the other half's callee is replaced by its frame-only contract. */
+void contract_frameonly_Frame__add__Points(struct Frame *self, const struct Points *point3d_frame)
+__CPROVER_requires(vf_exc == 0 && __CPROVER_rw_ok(self, sizeof(*self)) && __CPROVER_r_ok(point3d_frame, sizeof(*point3d_frame)))
+__CPROVER_assigns(self->_points, VF_GHOST_ALLOC)
+__CPROVER_ensures(vf_exc == 0);
+
+void contract_frameonly_Frame__add__Analogs(struct Frame *self, const struct Analogs *analogs_frame)
+__CPROVER_requires(vf_exc == 0 && __CPROVER_rw_ok(self, sizeof(*self)) && __CPROVER_r_ok(analogs_frame, sizeof(*analogs_frame)))
+__CPROVER_assigns(self->_analogs, VF_GHOST_ALLOC)
+__CPROVER_ensures(vf_exc == 0);
+
+void contract_P_Frame__add__Frame(struct Frame *self, const struct Frame *frame)
+__CPROVER_requires(vf_exc == 0 && __CPROVER_rw_ok(self, sizeof(*self)) && __CPROVER_r_ok(frame, sizeof(*frame)))
+__CPROVER_requires(__CPROVER_r_ok(frame->_points, sizeof(struct Points)) && VF_POINTS_OK(*frame->_points, vf_gj) &&
+                   __CPROVER_r_ok(frame->_analogs, sizeof(struct Analogs)))
+__CPROVER_assigns(self->_points, self->_analogs, VF_GHOST_ALLOC)
+/*@ C08 C06 C13 : Frame_add_Frame.own-points */
+__CPROVER_ensures(__CPROVER_is_fresh(self->_points, sizeof(struct Points)) && self->_points != frame->_points)
+/*@ C06 C01 : Frame_add_Frame.same-point-count */
+__CPROVER_ensures(self->_points->_points.size == frame->_points->_points.size)
+/*@ C13 C08 : Frame_add_Frame.points-storage */
+__CPROVER_ensures(__CPROVER_is_fresh(self->_points->_points.data, VF_VEC_BYTES(frame->_points->_points, struct Point)))
+/*@ C13 C08 : Frame_add_Frame.point-valid */
+__CPROVER_ensures(vf_gj < frame->_points->_points.size ==>
+                  (__CPROVER_is_fresh(self->_points->_points.data[vf_gj]._data.data, 4 * sizeof(float)) &&
+                   __CPROVER_is_fresh(self->_points->_points.data[vf_gj]._name.data, frame->_points->_points.data[vf_gj]._name.size + 1)))
+/*@ C06 C01 : Frame_add_Frame.same-points */
+__CPROVER_ensures(vf_gj < frame->_points->_points.size ==>
+                  VF_POINT_EQ_AT(self->_points->_points.data[vf_gj], frame->_points->_points.data[vf_gj], vf_gc))
+/*@ C06 C10 : Frame_add_Frame.nothrow-p */ __CPROVER_ensures(vf_exc == 0);
+
+void h_P_Frame_add_Frame(void)
+{
+  struct Frame *self = (struct Frame *)vf_alloc(sizeof(*self));
+  struct Frame *frame = (struct Frame *)vf_alloc(sizeof(*frame));
+  frame->_points = vf_mk_points();
+  frame->_analogs = (struct Analogs *)vf_alloc(sizeof(struct Analogs));
+  Frame__add__Frame(self, frame);
+  VF_CANARY();
+}
+
+void contract_A_Frame__add__Frame(struct Frame *self, const struct Frame *frame)
+__CPROVER_requires(vf_exc == 0 && __CPROVER_rw_ok(self, sizeof(*self)) && __CPROVER_r_ok(frame, sizeof(*frame)))
+__CPROVER_requires(__CPROVER_r_ok(frame->_analogs, sizeof(struct Analogs)) && VF_ANALOGS_OK(*frame->_analogs, vf_gk, vf_gj) &&
+                   __CPROVER_r_ok(frame->_points, sizeof(struct Points)))
+__CPROVER_assigns(self->_points, self->_analogs, VF_GHOST_ALLOC)
+/*@ C08 C06 C13 : Frame_add_Frame.own-analogs */
+__CPROVER_ensures(__CPROVER_is_fresh(self->_analogs, sizeof(struct Analogs)) && self->_analogs != frame->_analogs)
+/*@ C06 C01 : Frame_add_Frame.same-subframe-count */
+__CPROVER_ensures(self->_analogs->_subframe.size == frame->_analogs->_subframe.size)
+/*@ C13 C08 : Frame_add_Frame.subframe-storage */
+__CPROVER_ensures(__CPROVER_is_fresh(self->_analogs->_subframe.data, VF_VEC_BYTES(frame->_analogs->_subframe, struct SubFrame)))
+/*@ C13 C08 : Frame_add_Frame.channels-valid */
+__CPROVER_ensures(vf_gk < frame->_analogs->_subframe.size ==>
+                  __CPROVER_is_fresh(self->_analogs->_subframe.data[vf_gk]._channels.data,
+                                     VF_VEC_BYTES(frame->_analogs->_subframe.data[vf_gk]._channels, struct Channel)))
+/*@ C13 C08 : Frame_add_Frame.channel-name-valid */
+__CPROVER_ensures((vf_gk < frame->_analogs->_subframe.size && vf_gj < frame->_analogs->_subframe.data[vf_gk]._channels.size) ==>
+                  __CPROVER_is_fresh(self->_analogs->_subframe.data[vf_gk]._channels.data[vf_gj]._name.data,
+                                     frame->_analogs->_subframe.data[vf_gk]._channels.data[vf_gj]._name.size + 1))
+/*@ C06 C01 : Frame_add_Frame.same-channel-count */
+__CPROVER_ensures(vf_gk < frame->_analogs->_subframe.size ==>
+                  self->_analogs->_subframe.data[vf_gk]._channels.size == frame->_analogs->_subframe.data[vf_gk]._channels.size)
+/*@ C06 C01 : Frame_add_Frame.same-samples */
+__CPROVER_ensures((vf_gk < frame->_analogs->_subframe.size && vf_gj < frame->_analogs->_subframe.data[vf_gk]._channels.size) ==>
+                  VF_CHANNEL_EQ_AT(self->_analogs->_subframe.data[vf_gk]._channels.data[vf_gj],
+                                   frame->_analogs->_subframe.data[vf_gk]._channels.data[vf_gj], vf_gc))
+/*@ C06 C10 : Frame_add_Frame.nothrow-a */ __CPROVER_ensures(vf_exc == 0);
+
+void h_A_Frame_add_Frame(void)
+{
+  struct Frame *self = (struct Frame *)vf_alloc(sizeof(*self));
+  struct Frame *frame = (struct Frame *)vf_alloc(sizeof(*frame));
+  frame->_points = (struct Points *)vf_alloc(sizeof(struct Points));
+  frame->_analogs = vf_mk_analogs();
+  Frame__add__Frame(self, frame);
+  VF_CANARY();
 }
